@@ -361,6 +361,7 @@ let run_pshist payload =
     | L [A "remove"; A id] -> ORemove (str_of_atom id)
     | L [A "get"; A id] -> OGet (str_of_atom id)
     | L [A "all"] -> OAll
+    | L [A "iterrm"; A _] -> OAll   (* iteration with removals on a copy of the set: an observer; the harness answers like `all` unless a removed entry is produced *)
     | L [A "snap"] -> OAll          (* a copy of the set: the harness keeps it and checks after every later operation that it did not change *)
     | L [A "mapmut"; A id; A h] -> OMapMutate (str_of_atom id, cz_of_string h)
     | L [A "cedar"] -> OMarshalCedar
